@@ -2,6 +2,7 @@ package ovsdb
 
 import (
 	"fmt"
+	"math"
 	"reflect"
 )
 
@@ -97,8 +98,11 @@ func OvsToNativeAtomic(basicType string, ovsElem interface{}) (interface{}, erro
 	case TypeInteger:
 		naType := NativeTypeFromAtomic(basicType)
 		// Default decoding of numbers is float64, convert them to int
-		if !reflect.TypeOf(ovsElem).ConvertibleTo(naType) {
+		if ovsElem == nil || !reflect.TypeOf(ovsElem).ConvertibleTo(naType) {
 			return nil, NewErrWrongType("OvsToNativeAtomic", fmt.Sprintf("Convertible to %s", naType), ovsElem)
+		}
+		if f, ok := ovsElem.(float64); ok && f != math.Trunc(f) {
+			return nil, NewErrWrongType("OvsToNativeAtomic", "integer", ovsElem)
 		}
 		return reflect.ValueOf(ovsElem).Convert(naType).Interface(), nil
 	case TypeUUID:
@@ -304,14 +308,24 @@ func validateMutationAtomic(atype string, mutator Mutator, value interface{}) er
 		return fmt.Errorf("atomictype %s does not support mutation", atype)
 	case TypeReal:
 		switch mutator {
-		case MutateOperationAdd, MutateOperationSubtract, MutateOperationMultiply, MutateOperationDivide:
+		case MutateOperationDivide:
+			if value.(float64) == 0 {
+				return &DomainError{details: "division by zero"}
+			}
+			return nil
+		case MutateOperationAdd, MutateOperationSubtract, MutateOperationMultiply:
 			return nil
 		default:
 			return fmt.Errorf("wrong mutator for real type %s", mutator)
 		}
 	case TypeInteger:
 		switch mutator {
-		case MutateOperationAdd, MutateOperationSubtract, MutateOperationMultiply, MutateOperationDivide, MutateOperationModulo:
+		case MutateOperationDivide, MutateOperationModulo:
+			if value.(int) == 0 {
+				return &DomainError{details: "division by zero"}
+			}
+			return nil
+		case MutateOperationAdd, MutateOperationSubtract, MutateOperationMultiply:
 			return nil
 		default:
 			return fmt.Errorf("wrong mutator for integer type: %s", mutator)
